@@ -104,29 +104,19 @@ theorem applyOp_vecvec_err (tr : Tr α) (i1 i2 : Item α) (o : Char) (k : Nat) (
   simp only [(binOps_ne ho).1, (binOps_ne ho).2, if_false, isFloat, l1, ho, itemHasAF, hasAF_of_getAF g1, hasAF_of_getAF g2,
     opBin, hr, Bool.not_true, Bool.false_eq_true]
 
-/-- feature ∘ number through the operator object, the computation raising: `/` (ScalarDivider computes before it
-    creates anything, fix 5676890) leaves the track as it was; the others leave the temporary `#k` (zeros) behind -/
+/-- feature ∘ number through the operator object, the computation raising (a zero number under `/` included, since
+    fixes 5676890 / 2dd86ce): the temporary `#k` (zeros) has been created and is left behind -/
 theorem opScal_fresh_err (tr : Tr α) (o : Char) (s1 : Str) (k : Nat) (a : List α) (b : α) (err : Err)
     (hn : tr.n ≠ 0) (hf : lookup (tmpName k) tr.feats = none) (g1 : getAF tr s1 = .ok a) (hv : vsOp o a b = .error err) :
-    ∃ tr', opScal tr o s1 b (tmpName k) = (.error err, tr') ∧ Step tr tr' k (k + 1) := by
-  unfold opScal
-  by_cases hd : o = '/'
-  · rw [if_pos hd]
-    exact ⟨tr, runAfter_err tr _ _ err (by simp only [loopInput_eq tr s1 hn, g1]; exact hv), (Step.refl tr k).mono (by omega)⟩
-  · rw [if_neg hd]
-    exact ⟨_, runVoid_fresh_err tr k _ err hn hf (by simp only [getAF_ext _ g1]; exact hv), step_one tr k (konst tr zero)⟩
+    ∃ tr', opScal tr o s1 b (tmpName k) = (.error err, tr') ∧ Step tr tr' k (k + 1) :=
+  ⟨_, runVoid_fresh_err tr k _ err hn hf (by simp only [getAF_ext _ g1]; exact hv), step_one tr k (konst tr zero)⟩
 
 theorem opScalRev_fresh_err (tr : Tr α) (o : Char) (s2 : Str) (k : Nat) (a : List α) (b : α) (err : Err)
     (hn : tr.n ≠ 0) (hf : lookup (tmpName k) tr.feats = none) (g2 : getAF tr s2 = .ok a) (hv : svOp o b a = .error err) :
-    ∃ tr', opScalRev tr o s2 b (tmpName k) = (.error err, tr') ∧ Step tr tr' k (k + 1) := by
-  unfold opScalRev
-  by_cases hd : o = '/'
-  · rw [if_pos hd]
-    exact ⟨tr, runAfter_err tr _ _ err (by simp only [loopInput_eq tr s2 hn, g2]; exact hv), (Step.refl tr k).mono (by omega)⟩
-  · rw [if_neg hd]
-    exact ⟨_, runVoid_fresh_err tr k _ err hn hf (by simp only [getAF_ext _ g2]; exact hv), step_one tr k (konst tr zero)⟩
+    ∃ tr', opScalRev tr o s2 b (tmpName k) = (.error err, tr') ∧ Step tr tr' k (k + 1) :=
+  ⟨_, runVoid_fresh_err tr k _ err hn hf (by simp only [getAF_ext _ g2]; exact hv), step_one tr k (konst tr zero)⟩
 
-/-- feature ∘ number: a division raises before anything is created; otherwise the temporary `#k` is left behind -/
+/-- feature ∘ number: the temporary `#k` (zeros) is left behind -/
 theorem applyOp_veclit_err (tr : Tr α) (i1 i2 : Item α) (o : Char) (k : Nat) (a : List α) (b : α) (err : Err)
     (ho : binOps.contains o = true) (hn : tr.n ≠ 0) (hf : Fresh tr k) (hl : NoLitNames tr)
     (h1 : itemVal tr i1 = some (.vec a)) (h2 : itemVal tr i2 = some (.lit b)) (hv : vsOp o a b = .error err) :
@@ -147,7 +137,7 @@ theorem applyOp_veclit_err (tr : Tr α) (i1 i2 : Item α) (o : Char) (k : Nat) (
       hr, Bool.not_true, Bool.false_eq_true, t2]
   | unit => simp [itemVal] at h2
 
-/-- number ∘ feature: a division raises before anything is created; otherwise the temporary `#k` (zeros) is left behind -/
+/-- number ∘ feature: the temporary `#k` (zeros) is left behind -/
 theorem applyOp_litvec_err (tr : Tr α) (i1 i2 : Item α) (o : Char) (k : Nat) (a : List α) (b : α) (err : Err)
     (ho : binOps.contains o = true) (hn : tr.n ≠ 0) (hf : Fresh tr k) (hl : NoLitNames tr)
     (h1 : itemVal tr i1 = some (.lit b)) (h2 : itemVal tr i2 = some (.vec a)) (hv : svOp o b a = .error err) :
@@ -514,9 +504,12 @@ example : CallsOK eDiv ∧ CallsOK eSqrt ∧ CallsOK eDeep ∧ CallsOK eType := 
   simp only [eDiv, eSqrt, eDeep, eType, CallsOK, isNumLeaf]; decide
 example : Bound trE eDeep := ⟨⟨⟨_, rfl⟩, ⟨_, rfl⟩⟩, ⟨_, rfl⟩, ⟨_, rfl⟩⟩
 
-/-- `a/0`: division of a feature by the number 0 raises before anything is created -/
+/-- `a/0`: division of a feature by the number 0 raises at the first observation (`a[0] / 0`), the temporary `#0` having been
+    created as for every other scalar operator (fixes 5676890 / 2dd86ce; it used to raise on `1.0 / 0` before anything was
+    created); the purge of `operate` removes it -/
 example : denoteM trE eDiv = .error "err:zerodiv" := by rfl
-example : evalTokens trE (outputName :: (post eDiv ++ [['=']])) false = (.error "err:zerodiv", trE) := by rfl
+example : evalTokens trE (outputName :: (post eDiv ++ [['=']])) false
+    = (.error "err:zerodiv", ext trE [(tmpName 0, [0, 0, 0])]) := by rfl
 /-- `SQRT{a}` with a negative value: the temporary `#0` was created before the computation and is left behind
     by the evaluation; the purge of `operate` removes it -/
 example : denoteM trE eSqrt = .error "err:value" := by rfl
